@@ -13,10 +13,13 @@ def run(ctx):
     behs += sc.run_family(ctx, "ebgp", c, 6000 if big else 700, sim=(600 if big else 80, 12))
     c = sc.consts("ibgp", {"ok", "idOurs"}, {"annAB", "wdAannB"}, {"badMarker"}, {"ManualStop", "Notification"}, 6)
     behs += sc.run_family(ctx, "ibgp", c, 3000 if big else 300)
+    # time passes without events: nothing may happen (the hold timer of OpenSent is a large one)
+    c = sc.consts("ebgp", {"ok", "hold0"}, {"annA"}, set(), {"Wait", "Notification"}, 6)
+    behs += sc.run_family(ctx, "quiet periods", c, 400 if big else 40)
     c = sc.consts("hold3", {"hold3", "ok"}, {"annA"}, set(), {"WriteFails", "HoldExpires"}, 6)
     behs += sc.run_family(ctx, "hold3 (keepalive write failure)", c, 2000 if big else 150)
     ctx.rule = ("one witness per transition of the BGPFSM graph (every event - OPEN classes, KEEPALIVE, UPDATE classes, NOTIFICATION, "
-                "malformed header, hold timer expiry, keepalive write failure, manual stop - in every state, up to 2-3 consecutive "
+                "malformed header, hold timer expiry, keepalive write failure, manual stop, a quiet period of 2 s - in every state, up to 2-3 consecutive "
                 "connections) plus random event sequences; replayed on a real bgpServer with a passive peer over an in-memory connection; "
                 "after every event the observed (state, connection closed, RIBs attached, Adj-RIB-In, Loc-RIB, messages written, "
                 "negotiated hold time, ASN contribution) must equal the model's; non-trivial = the session reaches OpenConfirm or beyond")
